@@ -143,6 +143,9 @@ def run(tier, seed, replay=None):
             print('replay: compiles=%s errors=%s stdout=%s' % (r['ok'], r['errors'][:3], r.get('stdout', '')[:300]))
         return 0, dict(evaluations=1, distinct_nontrivial=0, obligations=len(gate['theorems']), discharged=len(gate['theorems']), checker_cmd='replay', trusted_base=[]), 0
     cases, stats, nontrivial, violations = core(rng, n)
+    ncmp, gviol = pe.check_genimpls([invocation(c) for c in cases])
+    stats['helper_impls_compared'] = ncmp
+    violations += gviol
     return finish('C17', tier, seed, gate, cases, stats, nontrivial, violations, set(),
                   rule=RULE,
                   samples=[dict(invocation=invocation(c)[:500], probes=c.probes[:3]) for c in cases[:3]],
